@@ -13,6 +13,7 @@
 (*          below which selection/sorting routines fall back to insertion sort) built by formula:  *)
 (*          all absolute errors distinct / repeated magnitudes with both signs / mostly zero /     *)
 (*          ties around the median; the permutation is the reversal                                *)
+(*   pear (wide, tag "pearwide"): 4..6 columns chosen from a pool of eight (see PearPool)            *)
 (*   rocu : scores that are neighbouring f32 values: the case carries integer ranks and a base,    *)
 (*          the harness maps rank r to 1/2 + r 2^-24 ("half"), r 2^-30 ("zero"), 1 - r 2^-24       *)
 (*          ("one", order reversed) -- all exactly representable, gaps >= 9e-10 (well above the    *)
@@ -27,6 +28,7 @@ CONSTANTS Kinds,
           RegLen, RegNeg, RegHi,
           SilMinLen, SilLen, SilPos, SilKs,
           PearRows, PearCols, PearHi,
+          PearWideCols,            \* numbers of columns of the wide Pearson matrices (kind tag "pearwide")
           RegLongLens,             \* lengths of the long regression vectors (kind tag "reglong")
           RocuLen, RocuRank        \* ulp-neighbour scores: ranks 0..RocuRank, length 2..RocuLen
 
@@ -75,6 +77,20 @@ InitPear ==
   \E cs \in [1..PearCols -> {cv \in Vecs(PearRows, 0, PearHi) : NonConst(cv)}] :
     case = [kind |-> "pear", inp |-> [cols |-> cs, perm |-> Rot(PearRows)]]
 
+\* wide matrices (4..6 columns, 6 rows): every subset of a pool of eight integer columns with pairwise
+\* different correlations, in pool order and in reverse order -- from four columns on the row-major
+\* upper triangle (0,1),(0,2),(0,3),(1,2).. differs from any other packing of the same coefficients
+PearPool == << <<0, 1, 2, 3, 4, 5>>, <<0, 1, 4, 9, 16, 25>>, <<5, 3, 4, 1, 2, 0>>, <<1, 0, 1, 0, 1, 0>>,
+               <<0, 0, 0, 1, 1, 3>>, <<2, 7, 1, 8, 2, 8>>, <<3, 1, 4, 1, 5, 9>>, <<0, 2, 0, -1, 3, 1>> >>
+RECURSIVE AscSeq(_)
+AscSeq(ss) == IF ss = {} THEN <<>> ELSE LET mn == CHOOSE x \in ss : \A y \in ss : x <= y IN <<mn>> \o AscSeq(ss \ {mn})
+InitPearWide ==
+  \E ss \in SUBSET (1..Len(PearPool)) : \E rv \in {FALSE, TRUE} :
+    /\ Cardinality(ss) \in PearWideCols
+    /\ LET ix == AscSeq(ss)  mm == Len(ix)
+       IN case = [kind |-> "pear",
+                  inp |-> [cols |-> [p \in 1..mm |-> PearPool[ix[IF rv THEN mm + 1 - p ELSE p]]], perm |-> Rot(6)]]
+
 \* long regression vectors: b = truth, a = prediction = b + d for an error pattern d
 Rev(nn) == [q \in 1..nn |-> nn + 1 - q]
 LongPatterns(nn) ==
@@ -99,6 +115,7 @@ InitRocu ==
     /\ case = [kind |-> "rocu", inp |-> [rank |-> rv, base |-> bs, truth |-> tv, perm |-> Rot(nn)]]
 
 Init ==
+  \/ "pearwide" \in Kinds /\ InitPearWide
   \/ "reglong" \in Kinds /\ InitRegLong
   \/ "rocu" \in Kinds /\ InitRocu
   \/ "cm" \in Kinds /\ InitCm
